@@ -552,7 +552,8 @@ class bptk():
                     scenarios=[scenario for scenario in manager.scenarios.keys() if scenario in scenarios],
                     equations=equations,
                     scenario_manager=manager.name,
-                    settings = settings
+                    settings = settings,
+                    settings_log = self.session_state["settings_log"]
                 )
 
                 if(flat):
